@@ -432,7 +432,14 @@ func (e *Engine) evalBinary(env *Env, v *ast.BinaryExpr) TV {
 		case *IfaceSV:
 			isnil = fmt.Sprintf("(= %s 0)", ov.Tag)
 		case *PtrSV:
-			isnil = fmt.Sprintf("(= %s 0)", e.ptrTerm(ov))
+			switch {
+			case ov.Kind == pkHeap:
+				isnil = fmt.Sprintf("(= %s 0)", ov.Ref) // an interior pointer is nil iff its root is
+			case ov.Kind == pkGlobal:
+				isnil = "false"
+			default:
+				isnil = "false" // address of a local or of an element
+			}
 		case *Sc:
 			isnil = fmt.Sprintf("(= %s 0)", ov.T)
 		case *FuncSV:
@@ -716,6 +723,13 @@ func (e *Engine) toIdxTV(tv TV) string {
 func (e *Engine) evalIndex(env *Env, v *ast.IndexExpr) TV {
 	x := e.eval(env, v.X)
 	i := e.eval(env, v.Index)
+	if x.T == byteStreamT {
+		if e.ar.mode != ModeInt {
+			sfail("ghost byte streams need the int encoding")
+		}
+		idx := e.toMath(i).V.(*Sc).T
+		return TV{V: &Sc{fmt.Sprintf("(select %s %s)", x.V.(*Sc).T, idx)}, T: types.Typ[types.Uint8]}
+	}
 	switch xt := x.T.Underlying().(type) {
 	case *types.Slice:
 		s := x.V.(*SliceSV)
@@ -1075,6 +1089,9 @@ func (e *Engine) mathBinary(op token.Token, x, y TV) TV {
 	sfail("operator %s not available on mathint", op)
 	return TV{}
 }
+
+// byteStreamT: ghost sequence of bytes indexed by mathematical position
+var byteStreamT = types.NewNamed(types.NewTypeName(token.NoPos, nil, "bytestream", nil), types.Typ[types.Int64], nil)
 
 var typeTagT = types.NewNamed(types.NewTypeName(token.NoPos, nil, "typetag", nil), types.Typ[types.Uintptr], nil)
 
